@@ -652,7 +652,7 @@ class Exec:
         if kind == 'elems' and ex[0] != 'field':
             env = {}
             for pn, pt in zip(self.callee_param_names(cf, cc, None), self.callee_param_types(cf, cc)):
-                env[pn] = V('dummy', vc.sort_of(pt), pt)
+                env[pn] = V(self.dummy(vc.sort_of(pt)), vc.sort_of(pt), pt)
             ev = SpecEval(vc, cc.pkg, env, st, None)
             sl = ev.eval(ex)
             hn, _ = vc.elem_heap(vc.sort_of(self.prog.under(sl.ts)['elem']))
@@ -678,6 +678,15 @@ class Exec:
             return (hn, amap[base[1]].term)
         return (hn, None)
 
+    def dummy(self, sort):
+        """a declared constant of the sort, for evaluations that are only needed for their type"""
+        d = getattr(self.vc, '_dummies', None)
+        if d is None:
+            d = self.vc._dummies = {}
+        if sort not in d:
+            d[sort] = self.vc.declare('dummy$' + san(sort), sort)
+        return d[sort]
+
     def static_type(self, cc, cf, e):
         if e[0] == 'id':
             names = self.callee_param_names(cf, cc, None)
@@ -695,7 +704,7 @@ class Exec:
         # general expression (e.g. a spec function applied to a parameter): evaluate for its type only
         env = {}
         for pn, pt in zip(self.callee_param_names(cf, cc, None), self.callee_param_types(cf, cc)):
-            env[pn] = V('dummy', self.vc.sort_of(pt), pt)
+            env[pn] = V(self.dummy(self.vc.sort_of(pt)), self.vc.sort_of(pt), pt)
         ev = SpecEval(self.vc, cc.pkg, env, State(self.vc, {}, '0', 0), None)
         try:
             v = ev.eval(e)
